@@ -133,13 +133,18 @@ class C18(World):
                 lo, hi = lo + 5.0, tc - 10.0
             te = args.uniform(lo, max(lo, hi - minlift - 0.5))
             tcnd = args.uniform(min(te + minlift, hi), hi)
+            if swarm["mainstream"] and args.random() < 0.25:
+                # round everyday operating points (0 C, 5 C, ... as an engineer would type them)
+                te_c, tc_c = float(args.choice([-10, 0, 0, 5, 10, 20])), float(args.choice([35, 40, 50, 60, 80]))
+                if lo <= te_c + 273.15 and tc_c + 273.15 <= hi and tc_c - te_c >= minlift:
+                    te, tcnd = te_c + 273.15, tc_c + 273.15
             try:
                 ok_floor = CP.PropsSI("P", "T", te, "Q", 1, fl) >= floor * 0.999
             except Exception:
                 ok_floor = False
             if not ok_floor:  # the floor could not be established for this fluid: fall back to a well-behaved one
                 fl, te, tcnd = "R134a", 273.15 + args.uniform(-20, 10), 273.15 + args.uniform(40, 80)
-            return dict(op="solve", refrigerant=fl, Te=round(te - 273.15, 2), Tc=round(tcnd - 273.15, 2), dT_sh=dsh, dT_sc=dsc, eta=float(args.choice([1.0, 0.9, 0.7, 0.7, 0.5, round(args.uniform(0.2, 1.0), 3)])), Q=float(args.choice([1.0, 100.0, 2500.0])))
+            return dict(op="solve", refrigerant=fl, Te=round(te - 273.15, 2), Tc=round(tcnd - 273.15, 2), dT_sh=dsh, dT_sc=dsc, eta=float(args.choice([1.0, 0.9, 0.7, 0.7, 0.5, round(args.uniform(0.2, 1.0), 3)])), Q=args.choice([1.0, 100.0, 2500.0, 100, 7.25, 2.0e-5, 1.0e-3]))
 
         steps = []
         solved = [False] * swarm["objects"]
@@ -150,7 +155,7 @@ class C18(World):
                 solved[o] = True
             else:
                 w = swarm["w_build"]
-                cand = [("renew", 0.4), ("build_cond", 2 * w), ("build_evap", 2 * w), ("build_both", 1 * w), ("set_dtcont", 0.7), ("set_dtdiff", 0.3), ("read", 0.7), ("solve", 1.0 * swarm["w_resolve"]), ("solve_fail", 10 * swarm["p_fail"])]
+                cand = [("renew", 0.4), ("build_cond", 2 * w), ("build_evap", 2 * w), ("build_both", 1 * w), ("set_dtcont", 0.7), ("set_dtdiff", 0.3), ("set_system", 0.25), ("set_state", 0.3), ("read", 0.7), ("solve", 1.0 * swarm["w_resolve"]), ("solve_fail", 10 * swarm["p_fail"])]
                 op = ops.choices([k for k, _ in cand], [x for _, x in cand])[0]
                 if op == "solve" and args.random() < 0.4:
                     # re-solve the same operating point with ONE argument changed (resolved at execution from the object's last request)
@@ -170,6 +175,11 @@ class C18(World):
                     st = dict(op=op, v=float(args.choice([0, 2.5, 5, 10])))
                 elif op == "set_dtdiff":
                     st = dict(op=op, v=float(args.choice([0.1, 0.5, 2.0])))
+                elif op == "set_system":
+                    st = dict(op=op, v=args.choice(["SI", "KSI", "EUR"]))
+                elif op == "set_state":
+                    st = dict(op=op, v=args.choice(["Ammonia", "Water", "n-Propane", "R134a"]))
+                    solved[o] = False
                 else:
                     st = dict(op=op)
             st["client"] = o
@@ -240,6 +250,13 @@ class C18(World):
 
         def site(o, what):
             return f"{M[o]['regime']}|{what}"
+
+        def has_glide(fl, p):
+            """Zeotropic blend: dew and bubble temperatures differ at this pressure (then 'Tc - dT_sc' is not a well-defined state)."""
+            try:
+                return abs(CP.PropsSI("T", "P", p, "Q", 1, fl) - CP.PropsSI("T", "P", p, "Q", 0, fl)) > 0.01
+            except Exception:
+                return True
 
         def confirm(a, which, Sx):
             """Is an entropy decrease reproduced when the same process is recomputed from the REQUEST
@@ -314,6 +331,11 @@ class C18(World):
                     V("p_sat", s, step, f"pressures {P[0]!r}/{P[1]!r} are not the saturation pressures of {a['Te']}/{a['Tc']} C (independent call, +-0.05 K)")
             except Exception:
                 probe("p_sat_independent_call_failed")
+            if m["regime"] == "regular":
+                tick("state_points")
+                Tk = cur["Ts"]
+                if abs(P[0] - P[3]) > 1e-4 * P[0] or abs(P[1] - P[2]) > 1e-4 * P[1]:
+                    V("state_points", s, step, f"pressures of the four state points are not two levels: {P!r}")
             tick("metrics_stable")
             if m["metrics"] is not None and cur != m["metrics"]:
                 keys = [k for k in cur if cur[k] != m["metrics"][k]]
@@ -494,6 +516,20 @@ class C18(World):
                 outcome = "ok"
             elif op == "set_dtdiff":
                 c.dt_diff_max = st["v"]
+                outcome = "ok"
+            elif op == "set_state":
+                # the public `state` setter installs another working fluid and invalidates the solution;
+                # the next solve(refrigerant=...) must still use the fluid it is told to use
+                try:
+                    c.state = st["v"]
+                    outcome = "ok"
+                except Exception as e:
+                    outcome = "raise:" + type(e).__name__
+                m.update(solved=False, metrics=None, first={}, pattern=[], judged=False)
+                probe("state_assigned_between_solves")
+            elif op == "set_system":
+                c.system = st["v"]  # plotting unit system: must not touch the solved state
+                probe("unit_system_switched_after_solve")
                 outcome = "ok"
             elif op == "read":
                 outcome = "ok"
